@@ -87,11 +87,18 @@ def h_data(sym, typ="stopping", mode="min", policy="rungs", myopic=False, ckpt=T
     from syne_tune.config_space import uniform
     stubs.shim_modules(["syne_tune.optimizer.schedulers.searchers.model_based_searcher"])
     cs = {"x": uniform(0, 1), "epochs": max_t}
-    sch = make(HyperbandScheduler, cs, searcher="bayesopt", metric="m", mode=mode, resource_attr="r",
-               max_resource_attr="epochs", type=typ, grace_period=grace, reduction_factor=rf, random_seed=1,
-               brackets=B, searcher_data=policy, register_pending_myopic=myopic,
-               search_options={"debug_log": False, "num_init_random": 10})
-    levels = ref_rung_levels(grace, max_t, rf=rf)
+    if typ == "sync":
+        from syne_tune.optimizer.schedulers.synchronous.hyperband import SynchronousHyperbandScheduler
+        stubs.shim_modules(["syne_tune.optimizer.schedulers.synchronous.hyperband_bracket", "syne_tune.optimizer.schedulers.synchronous.hyperband"])
+        sch = make(SynchronousHyperbandScheduler, cs, bracket_rungs=[[(2, 1), (1, 2)]], searcher="bayesopt", metric="m", mode=mode,
+                   resource_attr="r", max_resource_attr="epochs", random_seed=1, searcher_data=policy,
+                   search_options={"debug_log": False, "num_init_random": 10})
+    else:
+        sch = make(HyperbandScheduler, cs, searcher="bayesopt", metric="m", mode=mode, resource_attr="r",
+                   max_resource_attr="epochs", type=typ, grace_period=grace, reduction_factor=rf, random_seed=1,
+                   brackets=B, searcher_data=policy, register_pending_myopic=myopic,
+                   search_options={"debug_log": False, "num_init_random": 10})
+    levels = ref_rung_levels(grace, max_t, rf=rf) if typ != "sync" else [1, 2]
     nb = min(B, len(levels) + 1)
     hooks = C14Hooks(sym, sch, mode, policy, levels, max_t, nb)
     if nb > 1:
@@ -124,11 +131,15 @@ def obligations(tier):
     cfgs.append(dict(typ="promotion", policy="all", myopic=True, ckpt=False))
     cfgs.append(dict(typ="promotion", policy="rungs_and_last", myopic=False, ckpt=False))
     cfgs.append(dict(typ="stopping", policy="all", myopic=True, mode="max"))
+    cfgs.append(dict(typ="sync", policy="rungs", mode="min", max_t=2))
+    cfgs.append(dict(typ="sync", policy="all", mode="max", max_t=2))
     for c in cfgs:
         p = dict(c, T=T, E=E, W=2, max_fail=1)
         name = "C14.a[%s,%s%s%s,%s]" % (c["typ"], c["policy"], ",myopic" if c.get("myopic") else "",
                                        ",no-ckpt" if c.get("ckpt") is False else "", c.get("mode", "min"))
-        goals = ("failure", "end", "stop" if c["typ"] == "stopping" else "pause") + (("resume",) if c["typ"] == "promotion" else ())
+        goals = ("failure", "end", "stop" if c["typ"] == "stopping" else "pause") + (("resume",) if c["typ"] in ("promotion", "sync") else ())
+        if c["typ"] == "sync":
+            p.update(T=4, E=8)
         obs.append(Ob(name, "props.c14:h_data", p, bounds=dict(T=T, E=E, W=2, max_t=4, levels=[1, 2], failures="<=1", metrics="reals [-100,100]"),
                       goals=goals, split=(("c1", (0, 1, 2, 3)), ("c2", (0, 1, 2, 3, 4))), budget_s=1500,
                       stubs=("fmt", "npshim"), may_be_incomplete=not quick))
